@@ -433,23 +433,30 @@ class PathEval:
         return sat, assumption_ok, (self.pr.err, data, logs)
 
 
-def default_env(name, descr, init_storage=0):
-    """free symbols that are not inputs: the all-zero initial arrays (or, under symbolic storage, the chosen initial contents)"""
+ALT = 0x99  # "adversarial" contents of initial arrays that must read as zero (see mk_env(alt=True))
+
+
+def default_env(name, descr, init_storage=0, alt=False):
+    """free symbols that are not inputs: the all-zero initial arrays (or, under symbolic storage, the chosen initial contents).
+    alt=True: every initial array that is *supposed* to be empty holds ALT instead: a path whose constraints still hold under this
+    valuation reads such an array without the zero-initialisation axiom"""
     if name.startswith("storage_") and name.endswith("_00"):
+        if alt and not init_storage:
+            return Arr({}, ALT) if descr[0] == "array" else ALT
         return Arr({}, init_storage) if descr[0] == "array" else init_storage
     if name.endswith("_00") and descr[0] == "array":
-        return Arr({}, 0)
+        return Arr({}, ALT if alt else 0)
     if name == "balance_00":
-        return Arr({}, 0)
+        return Arr({}, ALT if alt else 0)
     if name == "f_sha3_0":  # keccak256 of the empty string (a 0-ary symbol in halmos)
         return 0xC5D2460186F7233C927E7DB2DCC703C0E500B653CA82273B7BFAD8045D85A470
     raise Unevaluable(f"free symbol {name} {descr}")
 
 
-def mk_env(inputs, init_storage=None):
+def mk_env(inputs, init_storage=None, alt=False):
     env = dict(inputs)
-    if init_storage:
-        env["__default__"] = lambda name, descr: default_env(name, descr, init_storage)
+    if init_storage or alt:
+        env["__default__"] = lambda name, descr: default_env(name, descr, init_storage or 0, alt)
     else:
         env["__default__"] = default_env
     return env
